@@ -1303,3 +1303,52 @@ Proof.
     cbn [fst snd] in Ec, Ed. subst cls'. constructor; [|apply IH; assumption].
     apply (class_inverse_is_reverse fa (scfg_of c ns) thr C1 cls e e' sh_t sh_r (Hord _) Ed Ht Hr).
 Qed.
+
+(** ** C. C09 (c) without the success hypothesis on the permuted run *)
+
+Lemma forallb_perm {A} (f : A -> bool) l l' : Permutation l l' -> forallb f l = forallb f l'.
+Proof. induction 1; cbn; try congruence. destruct (f x), (f y); reflexivity. Qed.
+
+Lemma valid_input_perm c g g' : Permutation g g' -> valid_input c g' = valid_input c g.
+Proof.
+  intros HP. unfold valid_input, typing_okb.
+  rewrite (forallb_perm _ g g' HP), (forallb_perm (sentinel_free (r_tau c)) g g' HP). reflexivity.
+Qed.
+
+(** under [valid_input] (Props/C04.v) both runs succeed: no hypothesis on
+    either outcome is left *)
+Theorem e2e_keys_perm_valid fa c thr g g' :
+  (r_cap c <= 0)%Z -> r_remove_empty c = false -> Permutation g g' -> valid_input c g = true ->
+  exists ns shapes shapes',
+    run_shapes fa c thr g = inl (ns, shapes) /\ run_shapes fa c thr g' = inl (ns, shapes') /\
+    (forall cls, In cls (map sh_class shapes) <-> In cls (map sh_class shapes')) /\
+    forall sh sh', In sh shapes -> In sh' shapes' -> sh_class sh = sh_class sh' ->
+      sh_name sh = sh_name sh' /\ sh_n sh = sh_n sh' /\
+      forall key, In key (map (skey (scfg_of c ns)) (sh_stmts sh)) <->
+                  In key (map (skey (scfg_of c ns)) (sh_stmts sh')).
+Proof.
+  intros Hcap Hre HP Hv.
+  destruct (run_total fa c thr g Hv) as (ns & shapes & H).
+  assert (Hv' : valid_input c g' = true) by (rewrite (valid_input_perm c g g' HP); exact Hv).
+  destruct (run_total fa c thr g' Hv') as (ns' & shapes' & H').
+  destruct (e2e_keys_perm fa c thr g g' ns shapes ns' shapes' Hcap Hre HP H H') as (-> & A & B).
+  exists ns, shapes, shapes'. auto.
+Qed.
+
+(** the permuted run succeeds whenever the given run does and the input is valid *)
+Theorem e2e_keys_perm_total fa c thr g g' ns shapes :
+  (r_cap c <= 0)%Z -> r_remove_empty c = false -> Permutation g g' -> valid_input c g = true ->
+  run_shapes fa c thr g = inl (ns, shapes) ->
+  exists shapes',
+    run_shapes fa c thr g' = inl (ns, shapes') /\
+    (forall cls, In cls (map sh_class shapes) <-> In cls (map sh_class shapes')) /\
+    forall sh sh', In sh shapes -> In sh' shapes' -> sh_class sh = sh_class sh' ->
+      sh_name sh = sh_name sh' /\ sh_n sh = sh_n sh' /\
+      forall key, In key (map (skey (scfg_of c ns)) (sh_stmts sh)) <->
+                  In key (map (skey (scfg_of c ns)) (sh_stmts sh')).
+Proof.
+  intros Hcap Hre HP Hv H.
+  destruct (e2e_keys_perm_valid fa c thr g g' Hcap Hre HP Hv) as (ns0 & sh0 & shapes' & H0 & H' & A & B).
+  assert (E : ns0 = ns /\ sh0 = shapes) by (split; congruence). destruct E as [-> ->].
+  exists shapes'. auto.
+Qed.
